@@ -194,7 +194,7 @@ pub fn run(run: &Run) {
     );
     run.assume("not generated because the statement is silent: duplicate signal/coding ids, equal sequence numbers, custom signals named like standard ones, empty SHORT-NAME / FRAME-TYPE, CODING-REF written as start/end tags, nested SHORT-NAME inside instances");
     run.regressions(&replay);
-    run.random("models", run.cases(60_000, 1_000_000), 0.5, strategy, check);
+    run.random("models", run.cases(120_000, 1_500_000), 0.5, strategy, check);
     cleanup_workdirs();
 }
 
